@@ -39,6 +39,12 @@ def run(ctx: Ctx) -> None:
     race(ctx)
     survive(ctx)
     eager_action_rules(ctx, "R-C16-EAGER")
+    from .C18 import DEPENDS, chain
+
+    with ctx.as_rule("R-C02-CATCH"):
+        # a failing (nested) dependency must fail the execution: the gathers do not turn exceptions into values that are then passed on as arguments
+        for q, provider in ((f"{DEPENDS}.resolve", "self._fn"), (f"{C.PROCESSOR}._actor_run", "actor.fn")):
+            chain(ctx, ctx.func(q), provider)
 
 
 def once(ctx: Ctx, rule: str = "R-C02-ONCE") -> None:
